@@ -17,9 +17,9 @@ def make_plan(ths, tier, rnd):
     for theory, (sig, stages) in modelcheck.select(ths, PROP, tier):
         api = histories.api_of(sig, modelcheck.module_path(theory))
         n = SIZE.get(theory, 2)
-        for _ in range(60 if thorough else 12):
+        for _ in range(24 if thorough else 12):
             fam += 1
-            for steps in histories.family_c03(sig, api, rnd, n, rnd.randint(2, 5), 8 if thorough else 4):
+            for steps in histories.family_c03(sig, api, rnd, n, rnd.randint(2, 5), 6 if thorough else 4):
                 plan.add(theory, steps, fam)
     return plan
 
